@@ -59,7 +59,8 @@ Walk(t, cur, comps, followLast, fuel) ==
     ELSE LET n == Head(comps)
              rest == Tail(comps)
              last == rest = <<>>
-         IN IF n = ".." THEN Walk(t, IF cur = <<>> THEN cur ELSE Parent(cur), rest, followLast, fuel)
+         IN IF n = ".." THEN IF cur = <<>> THEN [r |-> "err", e |-> "ESCAPE"]     \* leaves the private root: not modelled
+                             ELSE Walk(t, Parent(cur), rest, followLast, fuel)
             ELSE LET P == Append(cur, n) IN
               IF P \notin DOMAIN t
               THEN IF last THEN [r |-> "new", p |-> P] ELSE [r |-> "err", e |-> "ENOENT"]
@@ -82,9 +83,13 @@ Resolve(t, segs, follow) ==
 \* the final component, looked at without following it, is a symbolic link
 LastIsLink(t, segs) ==
     LET w == Walk(t, <<>>, Comps(segs), FALSE, Fuel) IN w.r = "node" /\ t[w.p].k = "l"
+\* the path leaves the private root through ".." (a link moved upwards by an earlier rename)
+Escapes(t, segs) ==
+    \E fl \in BOOLEAN : LET w == Walk(t, <<>>, Comps(segs), fl, Fuel) IN w.r = "err" /\ w.e = "ESCAPE"
 \* combinations this specification does not judge: a trailing separator on a symbolic link
-\* (what rename/rmdir/unlink/mkdir then do is a kernel subtlety outside C14's statement)
-Unjudged(t, segs) == TrailDir(segs) /\ LastIsLink(t, segs)
+\* (what rename/rmdir/unlink/mkdir then do is a kernel subtlety outside C14's statement), and
+\* paths that leave the modelled tree
+Unjudged(t, segs) == (TrailDir(segs) /\ LastIsLink(t, segs)) \/ Escapes(t, segs)
 
 \* ------------------------------------------------------------------ part 2: reference outcomes
 R(e, t, v) == [e |-> e, t |-> t, v |-> v]
